@@ -230,3 +230,53 @@ def native_rectgeo(arg, values):
     except Exception as ex:
         bad.append('fromgeo of the reconstructed geometry raises %s: %s' % (type(ex).__name__, ex))
     return (not bad), '; '.join(bad[:4]) or 'geometry recovered'
+
+
+def native_fromgeo_refined(arg, values):
+    """C04: fromgeo on a rectangular geometry refined on a column subset (irregular mesh), native clauses on floats."""
+    import numpy as np
+    from mulgrids import mulgrid
+    from t2grids import t2grid
+    (nx, ny, nz, atm), nsurf, cols = arg[:3]
+    order = arg[3] if len(arg) > 3 else None
+    dx = [_val(values, 'dx%d' % k, 10. + 3 * k) for k in range(nx)]; dy = [_val(values, 'dy%d' % k, 8. + 2 * k) for k in range(ny)]; dz = [_val(values, 'dz%d' % k, 5. + k) for k in range(nz)]
+    org = [_val(values, 'ox', 3.), _val(values, 'oy', -7.), _val(values, 'oz', 100.)]
+    geo = mulgrid().rectangular(dx, dy, dz, atmos_type=atm, origin=org, block_order=order)
+    geo.atmosphere_volume = _val(values, 'atmvol', 1.e25); geo.atmosphere_connection = _val(values, 'atmcon', 1.e-6)
+    bottom = org[2] - sum(dz)
+    for k in range(min(nsurf, nx * ny)):
+        s = _val(values, 'surf%d' % k, org[2] - 0.4 * dz[0])
+        if s <= bottom: s = bottom + 0.5 * dz[-1]
+        geo.columnlist[k].surface = s; geo.set_column_num_layers(geo.columnlist[k])
+    geo.setup_block_name_index(); geo.setup_block_connection_name_index()
+    geo.refine([geo.columnlist[k] for k in cols])
+    grid = t2grid().fromgeo(geo)
+    bad = []
+    close = lambda a, b: abs(a - b) <= 1e-9 * max(1., abs(a), abs(b))
+    names = [b.name for b in grid.blocklist]
+    if names != geo.block_name_list: bad.append('blocks %r, announced %r' % (names[:8], geo.block_name_list[:8]))
+    cn = [tuple(b.name for b in c.block) for c in grid.connectionlist]
+    if cn != geo.block_connection_name_list: bad.append('connections differ from the announced list')
+    na = geo.num_atmosphere_blocks
+    total = 0.
+    for b in grid.blocklist[na:]:
+        c, l = geo.column[geo.column_name(b.name)], geo.layer[geo.layer_name(b.name)]
+        top = c.surface if (c.surface <= l.top or l is geo.layerlist[1]) else l.top
+        if not close(b.volume, c.area * (top - l.bottom)): bad.append('block %r volume %r, area x height %r' % (b.name, b.volume, c.area * (top - l.bottom)))
+        total += b.volume
+    want = sum(c.area * (c.surface - geo.layerlist[-1].bottom) for c in geo.columnlist)
+    if not close(total, want): bad.append('total rock volume %r, sum of area x depth %r' % (total, want))
+    for c in grid.connectionlist:
+        b0, b1 = c.block
+        if b0.name in geo.block_name_list[:na] or b1.name in geo.block_name_list[:na]: continue
+        c0, c1 = geo.column[geo.column_name(b0.name)], geo.column[geo.column_name(b1.name)]
+        if c0 is c1: continue
+        l = geo.layer[geo.layer_name(b0.name)]
+        shared = [n for n in c0.node if n in c1.node]
+        e = shared[1].pos - shared[0].pos
+        hh = lambda cc: (cc.surface if (cc.surface <= l.top or l is geo.layerlist[1]) else l.top) - l.bottom
+        if not close(c.area, np.linalg.norm(e) * min(hh(c0), hh(c1))): bad.append('horizontal connection %r area %r' % ((b0.name, b1.name), c.area))
+        for d, cc in zip(c.distance, (c0, c1)):
+            v = cc.centre - shared[0].pos
+            if not close(d, abs(e[0] * v[1] - e[1] * v[0]) / np.linalg.norm(e)): bad.append('horizontal connection %r distance %r' % ((b0.name, b1.name), d))
+    return (not bad), '; '.join(bad[:4]) or 'all clauses hold'
